@@ -135,6 +135,12 @@ class RunCtx:
             mbox.Mailbox.FOLDER_SIZE_PACK_LIMIT = knobs["pack_limit"]
         if knobs.get("pack_ratio") is not None:
             mbox.Mailbox.FOLDER_RATIO_PACK_LIMIT = knobs["pack_ratio"]
+        if knobs.get("sock_buf"):
+            # a small socket send buffer: the server's drain() really waits for the (slow) client
+            import sim.net as simnet
+
+            simnet.HIGH_WATER = int(knobs["sock_buf"])
+            simnet.LOW_WATER = max(1, int(knobs["sock_buf"]) // 4)
         if knobs.get("max_input") is not None:
             import asimap.server as server
             import asimap.user_server as us
